@@ -59,14 +59,16 @@ func ZZH_C19_evict() {
 		zzCheckBatch(m, mp.ProcessTransactions([]pb.Transaction{tx}, false, true), batchSize)
 		s.admitted = present(s)
 	}
+	pauses := 0
+	arrivedAt := map[*zzSubmitted]int{} // number of pauses that had passed when the transaction arrived
 	for step := 0; step < k; step++ {
-		switch zz.Choice("op", 2) {
+		switch zz.Choice("op", 3) {
 		case 0:
 			if nextHash >= len(zzHashes) {
 				continue
 			}
 			ai := zz.Choice("acct", 2)
-			// (candidate nonces instead of a symbolic one: the symbolic dimension of this harness is the clock)
+			// (candidate nonces instead of a symbolic one: time is the subject of this harness)
 			nonce := m.committed[ai] + uint64(zz.Choice("nonce", 4))
 			h := zzHashes[nextHash]
 			nextHash++
@@ -75,22 +77,25 @@ func ZZH_C19_evict() {
 			m.subs = append(m.subs, s)
 			zzCheckBatch(m, mp.ProcessTransactions([]pb.Transaction{tx}, false, true), batchSize)
 			s.admitted = present(s)
-		case 1, 2:
-			// the age rule runs, either right away or after a pause longer than its threshold
-			if zz.Choice("pausedBefore", 2) == 1 {
-				zz.Pause(int64(100 * time.Millisecond))
-			}
-			ready := map[*zzSubmitted]bool{}
+			arrivedAt[s] = pauses
+		case 1:
+			zz.Pause(int64(100 * time.Millisecond)) // longer than the threshold of the age rule
+			pauses++
+		case 2:
+			ready, was := map[*zzSubmitted]bool{}, map[*zzSubmitted]bool{}
 			for _, s := range m.subs {
-				ready[s] = present(s) && s.nonce < m.committed[s.acct]+chain(s.acct)
+				was[s] = present(s)
+				ready[s] = was[s] && s.nonce < m.committed[s.acct]+chain(s.acct)
 			}
 			mp.RemoveAliveTimeoutTxs(50 * time.Millisecond)
 			for _, s := range m.subs {
 				if ready[s] {
 					zz.Assert("C19.evict.ready-tx-survives-age-rule", present(s))
-				} else if s.admitted && !present(s) {
+				} else if was[s] && !present(s) {
 					evicted[s] = true
 					zz.Cover("C19.evict.nonready-evicted", true)
+					// only a transaction that has been waiting longer than the threshold may go
+					zz.Assert("C19.evict.only-old-transactions-evicted", pauses > arrivedAt[s])
 				}
 			}
 		}
